@@ -57,3 +57,174 @@ LEVEL_TEXT = ("Lean 4 theorems (all histories, unbounded) about executable model
 LEVEL_NOTE = ("Trusted: Lean kernel, the statements in Props/C04.lean, the correspondence harness and generator. "
               "Numeric content of cached vectors is compared with tolerance (IEEE rounding is not modelled).")
 TECHNIQUE = "Lean 4 proof (invariant by induction over operation histories) + model/implementation correspondence"
+
+
+# ---------------------------------------------------------------------------
+# stream 2: API histories on the real solver objects, every answer compared with
+# the answer of a fresh object of the same configuration (the property itself)
+from lib import gen_ls as g
+
+ALGS = ["env", "chol", "gso", "svd"]
+SRC = ["lib/gnu_gama/adj/adj.cpp", "lib/gnu_gama/adj/icgs.cpp", "lib/gnu_gama/adj/adj_input_data.cpp"]
+
+
+def adj_harness(ctx):
+    return ctx.build_cpp("adj_harness", [ctx.verif / "harness" / "adj_harness.cpp"] + [ctx.repo / s for s in SRC],
+                         includes=[ctx.verif / "harness"])
+
+
+def gen_history(rng, maxlen):
+    p = g.gen_problem(rng, rng.choice(["levelling", "levelling", "dense"]), correlated=rng.random() < 0.3)
+    alg = rng.choice(ALGS)
+    entry = rng.choice(["solver", "solver", "adj"])
+    if entry == "solver" and alg != "env" and not p["unit_cov"]:
+        entry = "adj"
+    subs = [S for S, ok in g.gen_subsets(rng, p, 4) if ok]
+    init = rng.choice([None, "all"] + subs)
+    ops = g.problem_lines(p, init) + [f"new {alg} {entry}"]
+    n, m = p["n"], p["m"]
+    keys = [rng.randint(1, n) for _ in range(rng.randint(1, 5))]      # biased to revisit
+    okeys = [rng.randint(1, m) for _ in range(rng.randint(1, 4))]
+
+    def ij(ks):
+        return rng.choice(ks), rng.choice(ks)
+    qs = []
+    for _ in range(rng.randint(1, maxlen)):
+        r = rng.random()
+        if entry == "solver":
+            if r < 0.12:
+                q = "x"
+            elif r < 0.18:
+                q = "r"
+            elif r < 0.23:
+                q = "rtr"
+            elif r < 0.28:
+                q = "defect"
+            elif r < 0.50:
+                q = "qxx %d %d" % ij(keys)
+            elif r < 0.62:
+                q = "q0xx %d %d" % ij(keys) if alg == "env" else "qxx %d %d" % ij(keys)
+            elif r < 0.74:
+                q = "qbb %d %d" % ij(okeys)
+            elif r < 0.79:
+                q = "lindep %d" % rng.choice(keys)
+            elif r < 0.83 and alg != "env":
+                q = "qbx %d %d" % (rng.choice(okeys), rng.choice(keys))
+            elif r < 0.90:
+                S = rng.choice(subs)
+                q = "min_x %d %s" % (len(S), " ".join(map(str, S)))
+            elif r < 0.94:
+                q = "min_x_all"
+            else:
+                q = "reset"
+        else:
+            if r < 0.2:
+                q = "x"
+            elif r < 0.3:
+                q = "r"
+            elif r < 0.4:
+                q = "rtr"
+            elif r < 0.5:
+                q = "defect"
+            elif r < 0.7:
+                q = "qxx %d %d" % ij(keys)
+            elif r < 0.85:
+                q = "qbb %d %d" % ij(okeys)
+            elif r < 0.93:
+                q = "set_alg " + rng.choice(ALGS)
+            else:
+                q = "reset"
+        qs.append(q)
+    return p, alg, entry, ops, qs
+
+
+CONFIG_OPS = ("min_x", "min_x_all", "reset", "set_alg")
+
+
+def with_fresh(qs):
+    out = []
+    for q in qs:
+        out.append(q)
+        if not q.startswith(CONFIG_OPS):
+            out.append("fresh " + q)
+    return out
+
+
+def history_failures(case_ops, qs, out):
+    """compare every answer with the fresh-object answer; returns list of (index, q, got, fresh)"""
+    bad = []
+    k = len(case_ops)          # first query output position
+    o = out[len([l for l in case_ops if l == "end" or l.startswith("new ")]):]
+    pos = 0
+    for qi, q in enumerate(qs):
+        if pos >= len(o):
+            break
+        a = o[pos]
+        pos += 1
+        if q.startswith(CONFIG_OPS):
+            continue
+        if pos >= len(o):
+            break
+        f = o[pos]
+        pos += 1
+        if not lines_equal(a, f, rtol=1e-8, atol=1e-9):
+            bad.append((qi, q, a, f))
+    return bad
+
+
+def run_histories(ctx, corr, exe, n, maxlen, rng=None):
+    rng = rng or ctx.rng
+    gens = [gen_history(rng, maxlen) for _ in range(n)]
+    cases = [ops + with_fresh(qs) for (_, _, _, ops, qs) in gens]
+    impl, crashes = run_cases(exe, cases, timeout=1800)
+    for i, (p, alg, entry, ops, qs) in enumerate(gens):
+        evict = len(set(q for q in qs if q.startswith(("qxx", "q0xx")))) > 3
+        nontrivial = p["defect"] > 0 and any(q.startswith(CONFIG_OPS) for q in qs) or evict
+        corr.case(key=" ".join(ops + qs) if nontrivial else None,
+                  sample={"alg": alg, "entry": entry, "history": qs[:15], "answers": impl[i][2:12]} if i < 2 else None)
+        corr.count(f"hist_{alg}_{entry}")
+        corr.count("hist_singular" if p["defect"] else "hist_regular")
+        corr.count("hist_ops", len(qs))
+        if i in crashes:
+            corr.fail("history crashes the solver (sanitizer / abort)", {"stream": "history", "ops": ops + with_fresh(qs)},
+                      f"{alg}/{entry}", crashes[i][1])
+            continue
+        bad = history_failures(ops, qs, impl[i])
+        if bad:
+            qi, q, a, f = bad[0]
+            small = shrink_history(exe, ops, qs[:qi + 1])
+            corr.fail(f"answer to '{q}' depends on history: got {a}, fresh object gives {f}",
+                      {"stream": "history", "ops": ops + with_fresh(small), "alg": alg, "entry": entry, "history": small},
+                      f"{alg}/{entry}", f"{a} vs {f}")
+
+
+def shrink_history(exe, ops, qs):
+    def still(cand):
+        if not cand:
+            return False
+        out, cr = run_cases(exe, [ops + with_fresh(cand)], timeout=60)
+        return bool(cr) or bool(history_failures(ops, cand, out[0]))
+    try:
+        return ddmin(qs, still, max_tests=80)
+    except Exception:
+        return qs
+
+
+_mtf_correspond = correspond
+
+
+def correspond(ctx, corr):          # noqa: F811  (extends the MoveToFront stream defined above)
+    _mtf_correspond(ctx, corr)
+    exe = adj_harness(ctx)
+    run_histories(ctx, corr, exe, ctx.size(250, 8000), ctx.size(25, 120))
+
+
+def search(ctx, broken, corr):
+    c2 = Corr()
+    exe = adj_harness(ctx)
+    run_histories(ctx, c2, exe, 3000, 60, rng=random.Random(f"search-{ctx.seed}"))
+    return c2.failures
+
+
+def classify(ctx, failure):
+    return None
